@@ -1,4 +1,5 @@
 import Hcl.Proofs.AcceptedValid
+import Hcl.Proofs.NoLoopStages
 import Hcl.Graph.TopoSort
 
 /-!
@@ -183,3 +184,23 @@ theorem C10_accepted_acyclic (fl : Flags) (cls : CharClass) (o : Orders) (stmts 
         simpa using this
       omega
   · simp only [hum, if_false]; omega
+
+/-! ### for every rejected program: the reported loop is real -/
+
+/-- **C10, the reported loop is real**: whenever the diagnostics of `Program::new` (any statement list, flag set,
+    iteration order) contain a loop report, it is the only diagnostic, and the wires it lists form a cycle of the
+    dependency relation of the statements: each is read by what drives the next (the definition of a constant or wire,
+    or the built-in component with that output), and the last by what drives the first. -/
+theorem C10_reported_loop_real (fl : Flags) (cls : CharClass) (o : Orders) (stmts : List Stmt) (ds : List Diag) (c : List String)
+    (ho : OrdersOK o) (hwf : StmtsWF stmts)
+    (h : Program.new fl cls o y86FixedFunctions stmts = .error ds) (hc : (⟨.WireLoop, c⟩ : Diag) ∈ ds) :
+    ds = [⟨.WireLoop, c⟩] ∧ RelCycle (DependsOn stmts) c := by
+  rcases Program_new_nl fl cls o stmts ho hwf ds h with h1 | ⟨c', h1, h2⟩
+  · exact absurd rfl (h1 _ hc)
+  · rw [h1] at hc
+    simp only [List.mem_cons, List.not_mem_nil, or_false, Diag.mk.injEq, true_and] at hc
+    subst hc
+    exact ⟨h1, h2⟩
+
+/-- a cycle of a relation has at least one element, and every element has a successor in it -/
+example (R : Node → Node → Prop) (a b : Node) (h : RelCycle R [a, b]) : R a b ∧ R b a := ⟨h.1.1, h.2⟩
